@@ -85,8 +85,31 @@ def cases(tier):
                     yield dict(inp, ts=[list(a), list(b)])
 
 
+def near_cases(tier):
+    """Two-nucleotide structures whose smallest decision margin lies in [2e-5, 2e-4] (committed list mc/data/near_threshold.json, built by
+    tools/gen_near_threshold.py by bisection along lattice directions): decided by the property's 1e-6 rule, yet sensitive to anything that
+    perturbs coordinates at the 1e-3 level. Built and moved in memory - no decimal text in between."""
+    import json
+
+    with open(os.path.join(os.path.dirname(os.path.dirname(os.path.abspath(__file__))), "data", "near_threshold.json")) as f:
+        lst = json.load(f)
+    motions = [("rigid", "ico", k) for k in range(1, 60)] + [("rigid", "cube", k) for k in (3, 5, 9, 14, 17, 22)] + [("rigid", "translate", k) for k in (0, 3, 6, 7, 8)]
+    for c in lst:
+        for m in motions:
+            yield dict(near={k: v for k, v in c.items() if k not in ("margin", "crossed")}, crossed=c["crossed"], ts=[list(m)])
+
+
+def altloc_cases(tier):
+    """Lattice structures in which the last residue is present as two alternate conformers - one in place, one moved 8 A away - with occupancies
+    (0.40, 0.60) / (0.60, 0.40) / in either listing order: the same atoms as PDB and as mmCIF must be annotated identically."""
+    for k, c in enumerate(lattice_inputs(tier)[: 24 if tier == "quick" else 200]):
+        for occ in (("0.40", "0.60"), ("0.60", "0.40")):
+            for moved_first in (True, False):
+                yield dict(lattice=c, altloc=dict(occ=list(occ), moved_first=moved_first))
+
+
 def families(tier):
-    return [("transformations", lambda: cases(tier), 32)]
+    return [("transformations", lambda: cases(tier), 32), ("near-threshold", lambda: near_cases(tier), 64), ("altloc-format", lambda: altloc_cases(tier), 8)]
 
 
 # ---------------------------------------------------------------------------------------------
@@ -273,7 +296,83 @@ def base_of(case):
     return _base[key]
 
 
+_near = {}
+
+
+def run_near(case):
+    key = repr(case["near"])
+    if key not in _near:
+        _near.clear()
+        s0 = fam.structure_of(case["near"])
+        _near[key] = (s0, observe(digest, s0), refann.global_margin(refann.from_structure3d(s0)))
+    s0, d0, margin = _near[key]
+    if d0[0] == "exc":
+        return dict(nontrivial=True, outcome="base-exc", violations=[viol("original:" + d0[1], "annotating the original raised " + d0[2])])
+    if margin < 1e-6:
+        return dict(nontrivial=False, outcome="undecided-margin", violations=[], undecided=True)
+    tr = tuple(case["ts"][0])
+    if tr[1] == "cube":
+        s1 = fam.variant(s0, "rotate", tr[2])
+    elif tr[1] == "ico":
+        s1 = _rotate(s0, enum3d.icosahedral_rotations()[tr[2]])
+    else:
+        s1 = fam.variant(s0, "translate", tuple(float(v) for v in TRANSLATIONS[tr[2]]))
+    if refann.global_margin(refann.from_structure3d(s1)) < 1e-6:
+        return dict(nontrivial=False, outcome="undecided-margin", violations=[], undecided=True)
+    out = []
+    r = observe(digest, s1)
+    if r[0] == "exc":
+        out.append(viol("near-threshold:rigid:" + r[1], "annotating the moved structure (%s) raised %s" % (tr, r[2])))
+    else:
+        for k in d0[1]:
+            if d0[1][k] != r[1][k]:
+                out.append(viol("near-threshold:differs:rigid:%s" % k, "%s:%s changes %s of a structure with decision margin %.2e (%s): %s -> %s (placement %s)" % (tr[1], tr[2], k, margin, case["crossed"], d0[1][k], r[1][k], case["near"])))
+                break
+    return dict(nontrivial=True, key=[case["near"], case["ts"]], outcome="near:%s %s" % (case["crossed"].split(":")[1], "same" if not out else "DIFF"), violations=out)
+
+
+def run_altloc(case):
+    t = abstract_of(dict(lattice=case["lattice"]))
+    last = corpus.residues(t)[-1][0]
+    out_t = []
+    for a in t:
+        ident = (a["model"], a["chain"], a["resseq"], a["icode"], a["resname"])
+        if ident != tuple(last):
+            out_t.append(dict(a))
+            continue
+        inplace, moved = dict(a), dict(a)
+        moved["x"] = "%.3f" % (float(a["x"]) + 8.0)
+        first, second = (moved, inplace) if case["altloc"]["moved_first"] else (inplace, moved)
+        first["altloc"], second["altloc"] = "A", "B"
+        first["occ"], second["occ"] = case["altloc"]["occ"]
+        out_t.extend([first, second])
+    for k, a in enumerate(out_t):
+        a["serial"] = k + 1
+    if not corpus.pdb_expressible(out_t):
+        return dict(nontrivial=False, outcome="not-pdb-expressible", violations=[])
+    out = []
+    ds = {}
+    for fmt in ("mmCIF", "PDB"):
+        r = observe(lambda: digest(read_table(out_t, fmt)))
+        if r[0] == "exc":
+            out.append(viol("altloc:%s:%s" % (fmt, r[1]), "reading/annotating the %s text with alternate conformers raised %s" % (fmt, r[2])))
+        else:
+            ds[fmt] = r[1]
+    if len(ds) == 2:
+        for k in ds["PDB"]:
+            if ds["PDB"][k] != ds["mmCIF"][k]:
+                out.append(viol("altloc:differs:format:%s" % k, "the same atoms with alternate conformers (occupancies %s, moved conformer listed %s) give different %s as PDB and as mmCIF: %s vs %s"
+                                % (case["altloc"]["occ"], "first" if case["altloc"]["moved_first"] else "second", k, ds["PDB"][k], ds["mmCIF"][k])))
+                break
+    nint = sum(len(ds.get("mmCIF", {}).get(k, [])) for k in ("basePairs", "stackings", "baseRibose", "basePhosphate"))
+    return dict(nontrivial=True, key=[case["lattice"], case["altloc"]], outcome="altloc %s" % ("same" if not out else "DIFF"), violations=out)
+
+
 def run_case(case):
+    if "near" in case:
+        return run_near(case)
+    if "altloc" in case:
+        return run_altloc(case)
     t, s0, d0, margin = base_of(case)
     if d0[0] == "exc":
         return dict(nontrivial=True, outcome="base-exc", violations=[viol("original:" + d0[1], "annotating the original raised " + d0[2])])
